@@ -123,6 +123,25 @@ func TestVerifReplayParseBody(t *testing.T) {
 			fail("C11.w", why)
 		}
 	}
+	// the lines of the format end in "\n" alone: a "\r" belongs to the line, so "old 5\r" is no old-size line, "QUJD\r" no
+	// base64 and "\r" not the blank separator (bufio's ReadLine silently drops a "\r" before the "\n")
+	for name, body := range map[string]string{
+		"CR LF after the old-size line":  "old 0\r\n\n" + cp,
+		"CR LF after a proof line":       "old 1\nQUJD\r\n\n" + cp,
+		"CR LF as the blank separator":   "old 1\nQUJD\n\r\n" + cp,
+		"CR LF line endings throughout":  "old 1\r\nQUJD\r\n\r\n" + cp,
+		"unterminated old-size line":     "old 1",
+	} {
+		size, proof, got, err := parseBody(bytes.NewBufferString(body))
+		if err == nil {
+			why := fmt.Sprintf("%s: accepted as (old %d, %d hashes, checkpoint of %d bytes)", name, size, len(proof), len(got))
+			fail("C11.rl", why)
+			fail("C11.w", why)
+			fail("C11.b", why)
+			fail("C11.t", why)
+			fail("C10.rl", why)
+		}
+	}
 	// a reader that fails with an I/O error after i bytes: whatever is returned with an error must be the zero values
 	full := encode(7, hashes(3)) + "\n" + cp
 	for i := 0; i <= len(full); i++ {
